@@ -296,7 +296,8 @@ struct PrologEpilogInfo {
       if (n == 1) {
         pairs[pair_count].ids[1] = uint8_t(Reg::kIdBad);
         pairs[pair_count].offset = uint16_t(offset);
-        offset += slot_size * 2;
+        // A single register takes what FuncFrame::finalize() reserves for it.
+        offset += Support::align_up(slot_size, frame.save_restore_alignment(group));
         pair_count++;
       }
 
